@@ -43,3 +43,9 @@ Definition eval_changeable (l : list op) : string :=
       show_list (fun hf => show_N (fst hf) ++ ":" ++ show_N (snd hf)) (invocations o)
   | _, _ => "untranslated"
   end.
+
+(* the same script under the modes the property needs (function obtained before it is called, clones share the slot) *)
+Definition eval_changeable_spec (l : list op) : string :=
+  let o := exec GetThenCall Share l init in
+  (match o with Done _ => "done" | Deadlock _ => "deadlock" | BadHandle => "badhandle" end) ++ " " ++
+  show_list (fun hf => show_N (fst hf) ++ ":" ++ show_N (snd hf)) (invocations o).
